@@ -17,15 +17,12 @@ Byte(x, i) == (x \div (IF i = 0 THEN 1 ELSE IF i = 1 THEN 256 ELSE IF i = 2 THEN
 U16(x) == <<Byte(x, 0), Byte(x, 1)>>
 I32(x) == IF x >= 0 THEN <<Byte(x, 0), Byte(x, 1), Byte(x, 2), Byte(x, 3)>>
           ELSE LET y == -x - 1 IN <<255 - Byte(y, 0), 255 - Byte(y, 1), 255 - Byte(y, 2), 255 - Byte(y, 3)>>
-RECURSIVE CigarBytes(_)
 \* one CIGAR operation is the 32-bit word len * 16 + op with len < 2^28; it is written byte by byte so that a length above 2^27 (whose
 \* word has the top bit set) never leaves TLC's 32-bit integers
 CigarWord(op, len) == <<(len % 16) * 16 + op, Byte(len \div 16, 0), Byte(len \div 16, 1), Byte(len \div 16, 2)>>
-CigarBytes(c) == IF c = <<>> THEN <<>> ELSE CigarWord(c[1][1], c[1][2]) \o CigarBytes(Tail(c))
-RECURSIVE PackSeq(_)
-PackSeq(s) == IF s = <<>> THEN <<>>
-              ELSE IF Len(s) = 1 THEN <<s[1] * 16>>
-              ELSE <<s[1] * 16 + s[2]>> \o PackSeq(SubSeq(s, 3, Len(s)))
+\* (both packers are written as functions of the byte position, not by recursion, so that reads of tens of thousands of bases stay cheap in TLC)
+CigarBytes(c) == [j \in 1..(4 * Len(c)) |-> LET k == (j + 3) \div 4 IN CigarWord(c[k][1], c[k][2])[((j - 1) % 4) + 1]]
+PackSeq(s) == [j \in 1..((Len(s) + 1) \div 2) |-> s[2 * j - 1] * 16 + (IF 2 * j <= Len(s) THEN s[2 * j] ELSE 0)]
 Body(r) == I32(r.ref) \o I32(r.pos) \o <<Len(r.name) + 1, r.mapq>> \o U16(4680) \o U16(Len(r.cigar)) \o U16(r.flag)
            \o I32(Len(r.seq)) \o I32(-1) \o I32(-1) \o I32(0)
            \o r.name \o <<0>> \o CigarBytes(r.cigar) \o PackSeq(r.seq) \o r.qual \o r.tags
